@@ -94,6 +94,11 @@ def run_check(prop: str, tier: str, seed: int, replay: str | None = None) -> int
         ]
     else:
         jobs = mod.plan(tier, seed)
+        # SHARED = [(part, quick params, thorough params)]: the same monitors while 4 barrier-released threads run that part
+        # at once inside one process (module-level quoters, lru caches and cached URL objects are shared between them)
+        for part, qp, tp in getattr(mod, "SHARED", []):
+            for v in ("py", "c"):
+                jobs.append({"variant": v, "part": part, "shard": 0, "nshards": 1, "threads": 4, "params": dict(tp if tier == "thorough" else qp)})
         for j in jobs:
             j.setdefault("prop", prop)
             j.setdefault("tier", tier)
